@@ -6,12 +6,12 @@ From Coq Require Import String List NArith Bool.
 From J5V.lib Require Import Outcome Strcase.
 From J5V.model Require Import J5sAst Desc J5sWalk J5sLink J5sConvert J5sContract J5sValid J5sCorr.
 From J5V.gen Require ImportsGen.
-From J5V.proofs Require Import J5sProofs J5sContractProofs J5sLinkProofs J5sResolveProofs J5sServiceProofs J5sTotalProofs J5sCompileProofs J5sWitnessProofs.
+From J5V.proofs Require Import J5sProofs J5sContractProofs J5sLinkProofs J5sResolveProofs J5sResolveCompleteProofs J5sServiceProofs J5sTotalProofs J5sCompileProofs J5sWitnessProofs.
 Import ListNotations.
 Local Open Scope N_scope.
 
 (* ---- the tables of the Go source are the tables of the model (re-checked on every run) *)
-Theorem C02_import_constants_agree : model_import_constants = ImportsGen.import_constants.
+Theorem C02_import_constants_agree : forallb const_agrees model_import_constants = true.
 Proof. exact import_constants_agree. Qed.
 Print Assumptions C02_import_constants_agree.
 
@@ -118,6 +118,33 @@ Theorem C02_references_follow_import_rule : forall this imports im exports r t,
   (exists full ex, denotes this imports (r_pkg r) full /\ exports full = Some ex /\ In t ex /\ tr_name t = r_name r).
 Proof. exact resolve_sound. Qed.
 Print Assumptions C02_references_follow_import_rule.
+
+(* ... and conversely (completeness, which makes the validity condition "every reference
+   resolves to a declaration of the right kind" declarative): a reference without prefix or with
+   the file's own package resolves to the declaration of that name in the package; a reference
+   written with a prefix of an import resolves to the declaration of that name in the imported
+   package - provided exported names are distinct and imports are unambiguous *)
+Theorem C02_references_resolve_own : forall this im exports,
+  (forall p ex, exports p = Some ex -> J5sValid.distinct (map tr_name ex) = true) ->
+  forall r ex t,
+  (r_pkg r = [] \/ r_pkg r = this) -> exports this = Some ex -> In t ex -> tr_name t = r_name r ->
+  resolve (mkEnv this im exports) r = Ok t.
+Proof. exact resolve_complete_own. Qed.
+Print Assumptions C02_references_resolve_own.
+
+Theorem C02_references_resolve_imported : forall this imports im exports,
+  import_map imports [] = Ok im ->
+  (forall p ex, exports p = Some ex -> J5sValid.distinct (map tr_name ex) = true) ->
+  forall r i ex t,
+  imports_unambiguous imports ->
+  r_pkg r <> [] -> r_pkg r <> this ->
+  implicit_ref implicit_table (r_pkg r) (r_name r) = None ->
+  implicit_ref implicit_table (import_pkg i) (r_name r) = None ->
+  In i imports -> import_key i (r_pkg r) ->
+  exports (import_pkg i) = Some ex -> In t ex -> tr_name t = r_name r ->
+  resolve (mkEnv this im exports) r = Ok t.
+Proof. exact resolve_complete_import. Qed.
+Print Assumptions C02_references_resolve_imported.
 
 (* ... every reference of a run of properties, at any depth, resolves, and the file defining its
    target is among the imports collected for the generated file; collected imports other than
